@@ -80,7 +80,24 @@ def find_sinks(p, r1, f, chunk, buffer, scope_nodes=None):
         recv = norm(c.func.value)
         if isinstance(lp, ast.For) and len(lp.body) == 1 and _stmt(c) is lp.body[0] and not lp.orelse and norm(lp.target) in recv:
             coll, key = norm(lp.iter), norm(lp.target)
-            okl = recv in (key, f"{coll}[{key}]") and is_plain_iter(p, lp.iter)
+            it_expr = lp.iter
+            listed = None
+            if isinstance(it_expr, ast.Name):
+                # the collection under a local name bound once: `hashers = lookup.values()` / `hashers = [hasher]` (a shared read helper's parameter)
+                b_ = [n for n in walk_no_nested(f.node) if isinstance(n, ast.Assign) and len(n.targets) == 1 and isinstance(n.targets[0], ast.Name) and n.targets[0].id == it_expr.id]
+                st_ = [n for n in walk_no_nested(f.node) if isinstance(n, ast.Name) and n.id == it_expr.id and isinstance(n.ctx, ast.Store)]
+                if len(b_) == 1 and len(st_) == 1 and it_expr.id not in f.params:
+                    v_ = b_[0].value
+                    if isinstance(v_, (ast.List, ast.Tuple)) and v_.elts and all(isinstance(e, ast.Name) for e in v_.elts):
+                        listed = [e.id for e in v_.elts]
+                    elif isinstance(v_, ast.Call) and isinstance(v_.func, ast.Attribute) and v_.func.attr == "values" and not v_.args:
+                        coll, it_expr = norm(v_), v_
+            if listed is not None and recv == key:
+                r1.check(True, f, lp, "")
+                hashers.update(listed)
+                avoid.add(g.by_ast[id(lp)].id)
+                continue
+            okl = recv in (key, f"{coll}[{key}]") and is_plain_iter(p, it_expr)
             if recv == key and not coll.endswith(".values()"):
                 okl = False
             r1.check(okl, f, lp, "the update loop does not feed every hasher of the collection", construct=f"for {key} in {coll}: {recv}.update")
